@@ -131,4 +131,42 @@ def rqDistinct (wire : List WEv) : Bool := rqDistinctFrom none wire
 def accepts (wire : List WEv) (rs : List Res) : Bool :=
   exchangesOk wire && seqIncreasing wire && ownReply wire rs && closeLast wire
 
+/-! ### exchanges of more than one datagram (bridged targets)
+
+A request for a target behind the BMC goes out inside a Send Message request; the BMC answers with one, two or more
+datagrams (IPMI v1.5 §18.? / v2.0 §6.13.2 response tracking: the Send Message response itself — a bare acknowledgement —
+and the bridged reply, which arrives wrapped in the same envelope; one more acknowledgement per further bridge).  They
+all belong to the exchange of the datagram that asked for them.  Clause (X) for such logs:
+
+   (X′) the log is  tx rx* (rx|to)  tx rx* (rx|to) … [tx rx*]  where every rx / to is taken by the thread that sent the
+        preceding tx and concerns exactly that datagram: an exchange is  tx (rx)+  — or a time-out — OWNED BY ONE
+        THREAD; another thread's tx, rx or to between the tx and the last rx of an exchange is an interleaving.
+
+The other clauses are unchanged ((S), (C) look at transmissions only, (O) at the results).  On logs with one reply per
+datagram (X′) is implied by (X) (`Props.C14.exchangesOk_imp_multi`). -/
+
+structure MonM where
+  ok : Bool                    -- clause (X′) so far
+  ntx : Nat                    -- datagrams seen
+  opn : Option (Nat × Nat)     -- the exchange in progress / the latest one: (tid, serial)
+  answered : Bool              -- … has been answered at least once (a new exchange may begin)
+deriving DecidableEq, Repr
+
+def MonM.init : MonM := ⟨true, 0, none, false⟩
+
+def MonM.step (m : MonM) : WEv → MonM
+  | .tx t n _ _ _ =>
+    { ok := m.ok && (m.opn.isNone || m.answered) && n == m.ntx, ntx := m.ntx + 1, opn := some (t, n), answered := false }
+  | .rx t n => { m with ok := m.ok && m.opn == some (t, n), answered := true }
+  | .to t n => { m with ok := m.ok && m.opn == some (t, n), opn := none, answered := false }
+
+def monitorM (wire : List WEv) : MonM := wire.foldl MonM.step MonM.init
+
+/-- Clause (X′). -/
+def exchangesOkMulti (wire : List WEv) : Bool := (monitorM wire).ok
+
+/-- The property oracle for wire logs with multi-datagram exchanges (threads addressing bridged targets). -/
+def acceptsMulti (wire : List WEv) (rs : List Res) : Bool :=
+  exchangesOkMulti wire && seqIncreasing wire && ownReply wire rs && closeLast wire
+
 end PyIpmi.Spec.Threads
